@@ -87,7 +87,7 @@ def run_case(c):
             elif op["mode"] == "misuse_ctx":
                 T(X.to_input(t, v, "py"), _buffer=b, _context=xo.ContextCpu())
             elif op["mode"] == "misuse_offset":
-                T(X.to_input(t, v, "py"), _offset=8)
+                T(X.to_input(t, v, "py"), _offset={"zero": 0, "npzero": np.int64(0)}.get(op.get("offset"), 8))
             elif op["mode"] == "misuse_construct_at":
                 # a construction that cannot be honoured, at an explicit offset the caller reserved himself
                 o = int(b.allocate(size)); b.update_from_buffer(o, bytes([0x5A]) * size)
